@@ -323,13 +323,16 @@ func (a *Application) executeTranslatedNonStreamingRequest(
 
 	// Parse OpenAI response
 	var openaiResp map[string]interface{}
-	if jerr := json.Unmarshal(recorder.body.Bytes(), &openaiResp); jerr != nil {
-		return fmt.Errorf("failed to parse OpenAI response: %w", jerr)
-	}
+	jerr := json.Unmarshal(recorder.body.Bytes(), &openaiResp)
 
-	// handle backend errors
+	// handle backend errors first: a backend's 4xx/5xx keeps its status even when its body
+	// is not JSON (a gateway's text or HTML error page), instead of turning into a 502
 	if recorder.status >= 400 {
 		return a.handleNonStreamingBackendError(w, recorder, openaiResp, pr, trans)
+	}
+
+	if jerr != nil {
+		return fmt.Errorf("failed to parse OpenAI response: %w", jerr)
 	}
 
 	// transform and write successful response
